@@ -296,7 +296,8 @@ PROPS = {
                       "is room, and touches nothing else (visit_effect, matched_spec, visit_adds_only_open_matching, visit_delivers_all); drops happen only against a full queue and pending deliveries "
                       "are never removed or reordered (enqueue_eq, enqueue_drop_only_when_full, enqueue_prefix); whether a publisher's step is enabled never depends on a queue (enabled_indep_queues, "
                       "visit_enabled); a publish visits a connection at most once (visit_once); REQ/CLOSE/disconnect take effect at once (subscribe_registers, unsubscribe_removes, "
-                      "unsubAll_removes_everything); a publish that runs to completion leaves in every connection's queue exactly the owed deliveries (publish_queues, with reg_keys_nodup). "
+                      "unsubAll_removes_everything); a publish that runs to completion leaves in every connection's queue exactly the owed deliveries (publish_queues, with reg_keys_nodup), and what is owed contains EVENT s e "
+                      "exactly once per registered subscription (s, filters) whose filters match and nothing else (owed_count, owed_sound, subsOK_step). "
                       "Runtime-validated, not proved: that Go's RWMutex/channel runtime realises only LTS schedules; the real-time must/may rule for overlapping operations and per-publisher order are "
                       "judged on recorded concurrent histories by the monitor of Spec/RouterConc.lean (stream 2).",
         "level_note": "Trusted: Lean kernel + standard axioms; go2lean (bodytext pins); harness/driver; Go's sync.RWMutex, channels and race detector.",
